@@ -2,7 +2,7 @@
 From Coq Require Import List Bool.
 Import ListNotations.
 From Mos Require Import Str Xml Outcome Seq Spec Elements Classify Messages Merge Collection Proto.
-From Mos.proofs Require Import XmlFacts Clean CollFacts ClassifyFacts Examples.
+From Mos.proofs Require Import XmlFacts Clean CollFacts ClassifyFacts Examples Timing NoDupExample.
 
 (* Classifying any document either yields a class or raises UnknownMosFileType. *)
 Theorem C12_classify :
@@ -43,6 +43,40 @@ Proof.
   exact (proj1 (nonstrict_loop o rs s (nonstrict_terminates o rs s Hwf Hok Ht))).
 Qed.
 Print Assumptions C12_nonstrict_terminates.
+
+(* The timing guard is an invariant: ro_timing (a boolean: the roEdStart and the durations
+   present parse, every story has its storyID tag) in the state before, and msg_timing (the same
+   of the stories / roEdStart the message carries), give ro_timing afterwards - whatever the
+   merge did.  ro_timing implies timing_ok. *)
+Theorem C12_timing_preserved :
+  forall (o : oracles) (ro : xml) (k : mclass) (m : xml),
+  ro_timing o ro = true -> msg_timing o k m = true ->
+  ro_timing o (r_st (add o ro k m)) = true /\ timing_ok o (r_st (add o ro k m)).
+Proof.
+  intros o ro k m H1 H2. pose proof (add_timing o ro k m H1 H2) as H.
+  split; [exact H | now apply ro_timing_sound].
+Qed.
+Print Assumptions C12_timing_preserved.
+
+(* So the non-strict collection merge runs to the end under conditions on its inputs only:
+   the first running order and what each message carries - no hypothesis on intermediate
+   states. *)
+Theorem C12_nonstrict_terminates_on_inputs :
+  forall (o : oracles) (rs : list reader) (s : xml),
+  rc_of s <> None -> forallb reader_ok rs = true ->
+  ro_timing o s = true -> forallb (reader_timing o) rs = true ->
+  r_err (merge_loop o false rs s) = None.
+Proof.
+  intros o rs s Hrc Hok Ht Hrt.
+  assert (Hwf : wf_ro s = true) by now apply wf_ro_iff.
+  exact (proj1 (nonstrict_loop o rs s (nonstrict_terminates o rs s Hwf Hok (timing_along_from_start o rs s Ht Hrt)))).
+Qed.
+Print Assumptions C12_nonstrict_terminates_on_inputs.
+
+Theorem C12_timing_example :
+  ro_timing no_oracles ex_ro = true /\ forallb (reader_timing no_oracles) ex_readers = true /\ ex_readers <> [].
+Proof. exact ex_timing. Qed.
+Print Assumptions C12_timing_example.
 
 (* outside the guards the built-in exceptions are reachable in the model *)
 Theorem C12_guards_matter :
